@@ -1,6 +1,7 @@
 package main
 
 import (
+	"go/constant"
 	"go/token"
 	"go/types"
 	"regexp"
@@ -11,25 +12,25 @@ import (
 )
 
 func init() {
-	register(&Rule{Name: "PROV-ISSUER", Floor: 9, Run: ruleProvIssuer,
+	register(&Rule{Name: "PROV-ISSUER", Floor: 4, Run: ruleProvIssuer,
 		Doc: "every store to a field of the issuer context: for a configured issuer, name <- Subject (not Issuer), key bits and private key of ONE GetBuildArtifact result fetched for the Issuer alias of the entity's own configuration; self-signed: the entity's own context after its key exists; no other writer"})
-	register(&Rule{Name: "PROV-SIGN", Floor: 14, Run: ruleProvSign,
+	register(&Rule{Name: "PROV-SIGN", Floor: 7, Run: ruleProvSign,
 		Doc: "in the signing function: the key is the comma-ok type assertion of the issuer context's private key (mismatch returns an error), the digest is Sum(nil) of the hash that was fed asn1.Marshal(TBSCertificate), hash/hash id/key kind/outer OID come from one table call on the alg parameter, the issuer name store precedes the Marshal, nothing is stored into the TBS after it, the result is that certificate"})
-	register(&Rule{Name: "SIGALG-PARAMS", Floor: 3, Run: ruleSigAlgParams,
+	register(&Rule{Name: "SIGALG-PARAMS", Floor: 1, Run: ruleSigAlgParams,
 		Doc: "both signature AlgorithmIdentifiers receive their Parameters from one value that is asn1.NullRawValue exactly when the algorithm's key kind is RSA and absent otherwise"})
-	register(&Rule{Name: "PROV-KEYID", Floor: 4, Run: ruleProvKeyID,
+	register(&Rule{Name: "PROV-KEYID", Floor: 2, Run: ruleProvKeyID,
 		Doc: "the subject key identifier hashes the certificate's own subjectPublicKey bits, the authority key identifier the issuer context's public key bits, both with SHA-1, and the digest goes unmodified into the marshalled value"})
-	register(&Rule{Name: "PROV-VALIDITY", Floor: 4, Run: ruleProvValidity,
+	register(&Rule{Name: "PROV-VALIDITY", Floor: 2, Run: ruleProvValidity,
 		Doc: "notBefore/notAfter are the From/Until of the configuration, in that order, converted with time.Time.UTC()"})
-	register(&Rule{Name: "PROV-SUBJECT", Floor: 6, Run: ruleProvSubject,
+	register(&Rule{Name: "PROV-SUBJECT", Floor: 3, Run: ruleProvSubject,
 		Doc: "the certificate subject is the parsed subject string of the configuration; serial number and unique ids come from the like-named configuration fields (no cross-wiring), a configured serial replaces the random one only when non-zero, unique-id bit lengths are 8*len"})
-	register(&Rule{Name: "PROV-MANIP", Floor: 12, Run: ruleProvManip,
+	register(&Rule{Name: "PROV-MANIP", Floor: 6, Run: ruleProvManip,
 		Doc: "each of the six manipulation keys is wired to its own field and from there to the certificate field it names; TBS manipulations are stored before signing under their != nil guards, outer ones into the signed certificate after signing; a preset inner algorithm is kept"})
-	register(&Rule{Name: "PROV-KEY", Floor: 8, Run: ruleProvKey,
+	register(&Rule{Name: "PROV-KEY", Floor: 4, Run: ruleProvKey,
 		Doc: "regeneration passes the stored private key and request of the entity's own artifact; a key is generated only when both are absent, the request's public key is used only without a key, the returned artifact carries the context's key, the incoming request and the signed certificate; PEM export writes each part iff present"})
-	register(&Rule{Name: "PROV-RAW", Floor: 4, Run: ruleProvRaw,
+	register(&Rule{Name: "PROV-RAW", Floor: 2, Run: ruleProvRaw,
 		Doc: "a !binary: value is the standard base64 decoding of everything after the prefix; !empty and !null are the empty string and ASN.1 NULL"})
-	register(&Rule{Name: "FILLBYTES", Floor: 3, Run: ruleFillBytes,
+	register(&Rule{Name: "FILLBYTES", Floor: 1, Run: ruleFillBytes,
 		Doc: "the EC private scalar is written with FillBytes into a buffer of (N.BitLen()+7)/8 bytes (fixed width), and the reader rejects exactly the scalars >= N"})
 	register(&Rule{Name: "RAWDN", Floor: 1, Run: ruleRawDN,
 		Doc: "the issuer name placed into a certificate should be the issuer certificate's subject bytes; here it is a decoded pkix.RDNSequence that is re-encoded"})
@@ -74,6 +75,101 @@ type fstore struct {
 	st    *ssa.Store
 	field string // dotted path below the owner
 	root  ssa.Value
+	v     ssa.Value // the value that reaches the field when the store assigns a whole literal (nil: st.Val)
+	whole bool      // a whole-literal store that is also listed field by field
+}
+
+// val: the value stored into the field.
+func (f fstore) val() ssa.Value {
+	if f.v != nil {
+		return f.v
+	}
+	return f.st.Val
+}
+
+// literalFields: when v is a struct literal - built in place, or returned by a loop-free module helper that only fills
+// a literal from its parameters - the values of its fields, expressed in the frame of the function that uses v.
+func literalFields(c *Ctx, v ssa.Value) map[string]ssa.Value {
+	fieldsOfAlloc := func(al *ssa.Alloc, mapParam func(ssa.Value) ssa.Value) map[string]ssa.Value {
+		out := map[string]ssa.Value{}
+		if al.Referrers() == nil {
+			return nil
+		}
+		for _, u := range *al.Referrers() {
+			switch x := u.(type) {
+			case *ssa.FieldAddr:
+				if x.Referrers() == nil {
+					continue
+				}
+				for _, uu := range *x.Referrers() {
+					st, ok := uu.(*ssa.Store)
+					if !ok || st.Addr != ssa.Value(x) {
+						return nil // address taken otherwise: not a plain literal
+					}
+					if _, dup := out[fieldOfAddr(x).Name()]; dup {
+						return nil
+					}
+					out[fieldOfAddr(x).Name()] = mapParam(st.Val)
+				}
+			case *ssa.UnOp, *ssa.DebugRef:
+			case *ssa.Store:
+				if x.Addr == ssa.Value(al) {
+					return nil // assigned as a whole somewhere
+				}
+			default:
+				return nil
+			}
+		}
+		return out
+	}
+	ident := func(x ssa.Value) ssa.Value { return x }
+	switch x := v.(type) {
+	case *ssa.UnOp:
+		if al, ok := x.X.(*ssa.Alloc); ok && x.Op == token.MUL && strings.Contains(al.Comment, "complit") {
+			return fieldsOfAlloc(al, ident)
+		}
+	case *ssa.Call:
+		g := x.Call.StaticCallee()
+		if g == nil || !c.InModule(g) || g.Blocks == nil || len(g.Blocks) != 1 || g.Signature.Results().Len() != 1 {
+			return nil
+		}
+		rets := returnsOf(g)
+		if len(rets) != 1 {
+			return nil
+		}
+		ld, ok := retResults(rets[0])[0].(*ssa.UnOp)
+		if !ok || ld.Op != token.MUL {
+			return nil
+		}
+		al, ok := ld.X.(*ssa.Alloc)
+		if !ok {
+			return nil
+		}
+		okAll := true
+		m := fieldsOfAlloc(al, func(v ssa.Value) ssa.Value {
+			switch y := v.(type) {
+			case *ssa.Parameter:
+				for i, q := range g.Params {
+					if q == y && i < len(x.Call.Args) {
+						return x.Call.Args[i]
+					}
+				}
+			case *ssa.Const:
+				return y
+			case *ssa.UnOp:
+				if _, isG := y.X.(*ssa.Global); isG {
+					return y
+				}
+			}
+			okAll = false
+			return v
+		})
+		if !okAll {
+			return nil
+		}
+		return m
+	}
+	return nil
 }
 
 func storesIntoType(c *Ctx, fn *ssa.Function, ownerSuffix string) []fstore {
@@ -94,7 +190,21 @@ func storesIntoType(c *Ctx, fn *ssa.Function, ownerSuffix string) []fstore {
 				}
 				names = append([]string{fieldOfAddr(fa).Name()}, names...)
 				if strings.HasSuffix(ownerName(c, fa.X.Type()), ownerSuffix) {
-					out = append(out, fstore{st, strings.Join(names, "."), fa.X})
+					path := strings.Join(names, ".")
+					// a whole literal assigned to a struct-typed field: one store per field of the literal
+					if lf := literalFields(c, st.Val); len(lf) > 0 {
+						var fnames []string
+						for n := range lf {
+							fnames = append(fnames, n)
+						}
+						sort.Strings(fnames)
+						out = append(out, fstore{st, path, fa.X, nil, true})
+						for _, n := range fnames {
+							out = append(out, fstore{st, path + "." + n, fa.X, lf[n], false})
+						}
+						break
+					}
+					out = append(out, fstore{st, path, fa.X, nil, false})
 					break
 				}
 				cur = fa.X
@@ -105,7 +215,7 @@ func storesIntoType(c *Ctx, fn *ssa.Function, ownerSuffix string) []fstore {
 					_, isParamSpill := st.Val.(*ssa.Parameter)
 					al, isLocal := st.Addr.(*ssa.Alloc)
 					if !isParamSpill && !(isLocal && !al.Heap) { // copies into plain local variables write no shared object
-						out = append(out, fstore{st, "", st.Addr})
+						out = append(out, fstore{st, "", st.Addr, nil, false})
 					}
 				}
 			}
@@ -273,7 +383,7 @@ func ruleProvIssuer(c *Ctx, r *Rep) {
 			// checked at the driver through inlining. The own-context converter additionally must read Subject, not Issuer.
 			prm := "P(" + fk + "." + fn.Params[0].Name() + ")"
 			for _, fs := range byFn[fn] {
-				o := pv.Origins(fs.st.Val)
+				o := pv.Origins(fs.val())
 				ok := len(o) >= 1
 				for _, x := range o {
 					if !strings.HasPrefix(x, prm) {
@@ -290,7 +400,7 @@ func ruleProvIssuer(c *Ctx, r *Rep) {
 			subj := ""
 			for _, fs := range storesIntoType(c, fn, "cert.TbsCertificate") {
 				if fs.field == "Subject" {
-					subj += strings.Join(pv.Origins(fs.st.Val), ",") + ","
+					subj += strings.Join(pv.Origins(fs.val()), ",") + ","
 				}
 			}
 			isCtor := false
@@ -308,7 +418,7 @@ func ruleProvIssuer(c *Ctx, r *Rep) {
 			for _, fs := range byFn[fn] {
 				switch fs.field {
 				case "IssuerDn":
-					o := pv.Origins(fs.st.Val)
+					o := pv.Origins(fs.val())
 					ok := true
 					for _, x := range o {
 						if !strings.Contains(subj, x+",") {
@@ -317,7 +427,7 @@ func ruleProvIssuer(c *Ctx, r *Rep) {
 					}
 					r.Check(ok, "placeholder|"+fk+"|IssuerDn", c.Pos(fs.st.Pos()), "a new context's placeholder issuer name is its own subject", strings.Join(o, " , "))
 				case "PrivateKey":
-					expectSet(r, "placeholder|"+fk+"|PrivateKey", c.Pos(fs.st.Pos()), pv.Origins(fs.st.Val), "no key yet (signing refuses a nil key)", "K(nil)")
+					expectSet(r, "placeholder|"+fk+"|PrivateKey", c.Pos(fs.st.Pos()), pv.Origins(fs.val()), "no key yet (signing refuses a nil key)", "K(nil)")
 				}
 			}
 		}
@@ -328,7 +438,7 @@ func ruleProvIssuer(c *Ctx, r *Rep) {
 		if len(fn.Params) == 2 && strings.HasSuffix(typeShort(c, fn.Params[1].Type()), "cert.IssuerContext") {
 			for _, fs := range storesIntoType(c, fn, "cert.TbsCertificate") {
 				if fs.field == "Issuer" {
-					expectSet(r, "set-issuer|"+c.FuncKey(fn), c.Pos(fs.st.Pos()), pv.Origins(fs.st.Val), "TBS issuer = the given context's name", "P("+c.FuncKey(fn)+"."+fn.Params[1].Name()+").IssuerDn")
+					expectSet(r, "set-issuer|"+c.FuncKey(fn), c.Pos(fs.st.Pos()), pv.Origins(fs.val()), "TBS issuer = the given context's name", "P("+c.FuncKey(fn)+"."+fn.Params[1].Name()+").IssuerDn")
 				}
 			}
 		}
@@ -510,7 +620,7 @@ func ruleProvSign(c *Ctx, r *Rep) {
 	issuerStored := false
 	for _, fs := range storesIntoType(c, fn, "cert.TbsCertificate") {
 		if fs.field == "Issuer" {
-			o := pv.Origins(fs.st.Val)
+			o := pv.Origins(fs.val())
 			if expectSet(r, "tbs-issuer|"+fk, c.Pos(fs.st.Pos()), o, "the certificate's issuer name is the issuer context's name", recv+".Issuer.IssuerDn") && instrDominates(fs.st, marshal) {
 				issuerStored = true
 			}
@@ -523,37 +633,27 @@ func ruleProvSign(c *Ctx, r *Rep) {
 	// outer algorithm and signature value
 	for _, fs := range storesIntoType(c, fn, "cert.Certificate") {
 		switch {
-		case fs.field == "SignatureAlgorithm" || fs.field == "SignatureAlgorithm.Algorithm":
-			lit := ""
-			if al, ok := fs.st.Val.(*ssa.UnOp); ok {
-				if a, ok := al.X.(*ssa.Alloc); ok {
-					if v := storedTo(a, "Algorithm"); v != nil {
-						r.Check(fromTable(v, "oid"), "outer-oid|"+fk, c.Pos(fs.st.Pos()), "outer algorithm OID from the algorithm table", v.String())
-						lit = "ok"
-					}
-				}
-			}
-			if lit == "" {
-				r.Check(fromTable(fs.st.Val, "oid"), "outer-oid|"+fk, c.Pos(fs.st.Pos()), "outer algorithm OID from the algorithm table", fs.st.Val.String())
-			}
+		case fs.field == "SignatureAlgorithm.Algorithm":
+			r.Check(fromTable(fs.val(), "oid"), "outer-oid|"+fk, c.Pos(fs.st.Pos()), "outer algorithm OID from the algorithm table", fs.val().String())
+		case fs.field == "SignatureAlgorithm" && !fs.whole:
+			r.Bad("outer-oid|"+fk, c.Pos(fs.st.Pos()), "outer algorithm identifier assembled from the algorithm table's OID", "assigned as a whole from "+fs.val().String())
 		case fs.field == "SignatureValue":
-			o := pv.Origins(fs.st.Val)
+			o := pv.Origins(fs.val())
 			ok := len(o) == 1 && strings.Contains(o[0], "Bytes=crypto/ecdsa.SignASN1(") && strings.Contains(o[0], "crypto/rsa.SignPKCS1v15(")
 			r.Check(ok, "signature-value|"+fk, c.Pos(fs.st.Pos()), "signatureValue bytes = the signature just computed", strings.Join(o, ","))
 		}
 	}
 	// inner algorithm: sigAlgOids[alg], kept when preset
 	for _, fs := range storesIntoType(c, fn, "cert.TbsCertificate") {
-		if fs.field != "SignatureAlgorithm" {
+		if fs.field != "SignatureAlgorithm.Algorithm" {
+			if fs.field == "SignatureAlgorithm" && !fs.whole {
+				r.Bad("inner-oid|"+fk, c.Pos(fs.st.Pos()), "inner algorithm = table[alg] for the same alg parameter", "assigned as a whole from "+fs.val().String())
+			}
 			continue
 		}
 		okIdx := false
-		if u, ok := fs.st.Val.(*ssa.UnOp); ok {
-			if a, ok := u.X.(*ssa.Alloc); ok {
-				if lk, ok := storedTo(a, "Algorithm").(*ssa.Lookup); ok && lk.Index == ssa.Value(algParam) {
-					okIdx = true
-				}
-			}
+		if lk, ok := fs.val().(*ssa.Lookup); ok && lk.Index == ssa.Value(algParam) {
+			okIdx = true
 		}
 		r.Check(okIdx, "inner-oid|"+fk, c.Pos(fs.st.Pos()), "inner algorithm = table[alg] for the same alg parameter", sprintf("%v", okIdx))
 		// guarded by Algorithm == nil (a manipulation preset is kept)
@@ -628,18 +728,19 @@ func ruleSigAlgParams(c *Ctx, r *Rep) {
 	fk := c.FuncKey(fn)
 	var vals []ssa.Value
 	var poss []token.Pos
-	for _, b := range fn.Blocks {
-		for _, ins := range b.Instrs {
-			st, ok := ins.(*ssa.Store)
-			if !ok {
+	seenSt := map[string]bool{}
+	for _, owner := range []string{"cert.Certificate", "cert.TbsCertificate"} {
+		for _, fs := range storesIntoType(c, fn, owner) {
+			if !strings.HasSuffix(fs.field, "SignatureAlgorithm.Parameters") {
 				continue
 			}
-			fa, ok := st.Addr.(*ssa.FieldAddr)
-			if !ok || fieldOfAddr(fa).Name() != "Parameters" || !typeIs(fa.X.Type().Underlying().(*types.Pointer).Elem(), "crypto/x509/pkix", "AlgorithmIdentifier") {
-				continue
+			k := sprintf("%p|%s", fs.st, fs.field[strings.LastIndex(fs.field, "SignatureAlgorithm"):])
+			if seenSt[k] {
+				continue // the same store seen through both owner types
 			}
-			vals = append(vals, st.Val)
-			poss = append(poss, st.Pos())
+			seenSt[k] = true
+			vals = append(vals, fs.val())
+			poss = append(poss, fs.st.Pos())
 		}
 	}
 	if !r.Check(len(vals) == 2, "parameter-sinks|"+fk, c.FnPos(fn), "Parameters is stored for the inner and the outer identifier", sprintf("%d stores", len(vals))) {
@@ -813,7 +914,7 @@ func ruleProvValidity(c *Ctx, r *Rep) {
 				continue
 			}
 			ctor = fn
-			o := pv.Origins(fs.st.Val)
+			o := pv.Origins(fs.val())
 			ok := len(o) == 1 && strings.HasPrefix(o[0], "(time.Time).UTC(P(") && strings.HasSuffix(o[0], "))")
 			r.Check(ok, "utc|"+c.FuncKey(fn)+"|"+fs.field, c.Pos(fs.st.Pos()), "value converted with time.Time.UTC()", strings.Join(o, ","))
 		}
@@ -825,7 +926,7 @@ func ruleProvValidity(c *Ctx, r *Rep) {
 	// which parameter feeds which bound
 	bound := map[string]int{}
 	for _, fs := range storesIntoType(c, ctor, "cert.TbsCertificate") {
-		if call, ok := fs.st.Val.(*ssa.Call); ok && len(call.Call.Args) == 1 {
+		if call, ok := fs.val().(*ssa.Call); ok && len(call.Call.Args) == 1 {
 			for i, p := range ctor.Params {
 				if call.Call.Args[0] == ssa.Value(p) {
 					bound[fs.field] = i
@@ -947,8 +1048,17 @@ func ruleProvSubject(c *Ctx, r *Rep) {
 			// and the constructor stores it as the TBS subject
 			ok := false
 			for _, fs := range storesIntoType(c, f, "cert.TbsCertificate") {
-				if fs.field == "Subject" && fs.st.Val == ssa.Value(f.Params[0]) {
+				if fs.field != "Subject" {
+					continue
+				}
+				if fs.val() == ssa.Value(f.Params[0]) {
 					ok = true
+				}
+				// the argument, or the default subject when none is given (a phi of the two)
+				for _, pe := range phiEdges(fs.val(), nil) {
+					if pe.Val == ssa.Value(f.Params[0]) {
+						ok = true
+					}
 				}
 			}
 			r.Check(ok, "subject-stored|"+c.FuncKey(f), c.FnPos(f), "the constructor stores its subject argument as the TBS subject", sprintf("%v", ok))
@@ -997,19 +1107,19 @@ func ruleProvSubject(c *Ctx, r *Rep) {
 	for _, fs := range storesIntoType(c, init, "config.CertificateContent") {
 		switch fs.field {
 		case "SerialNumber", "Profile", "Alias", "Issuer":
-			expectSet(r, "yaml|"+fs.field, c.Pos(fs.st.Pos()), pv.Origins(fs.st.Val), "like-named YAML field", yaml+"."+fs.field)
+			expectSet(r, "yaml|"+fs.field, c.Pos(fs.st.Pos()), pv.Origins(fs.val()), "like-named YAML field", yaml+"."+fs.field)
 		case "Subject":
 			ok := false
-			if ex, isEx := fs.st.Val.(*ssa.Extract); isEx && ex.Index == 0 {
+			if ex, isEx := fs.val().(*ssa.Extract); isEx && ex.Index == 0 {
 				if call, isCall := ex.Tuple.(*ssa.Call); isCall && call.Call.StaticCallee() != nil && typeIs(call.Call.StaticCallee().Signature.Results().At(0).Type(), "crypto/x509/pkix", "RDNSequence") {
 					ao := pv.Origins(call.Call.Args[0])
 					ok = len(ao) == 1 && ao[0] == yaml+".Subject"
 				}
 			}
-			r.Check(ok, "yaml|Subject", c.Pos(fs.st.Pos()), "the subject parser applied to <yaml>.Subject", fs.st.Val.String())
+			r.Check(ok, "yaml|Subject", c.Pos(fs.st.Pos()), "the subject parser applied to <yaml>.Subject", fs.val().String())
 		case "IssuerUniqueId.Bytes", "SubjectUniqueId.Bytes":
 			name := strings.TrimSuffix(fs.field, ".Bytes")
-			o := pv.Origins(fs.st.Val)
+			o := pv.Origins(fs.val())
 			ok := false
 			for _, x := range o {
 				if strings.Contains(x, yaml+"."+name+"|") || strings.Contains(x, yaml+"."+name+")") {
@@ -1025,7 +1135,7 @@ func ruleProvSubject(c *Ctx, r *Rep) {
 		case "IssuerUniqueId.BitLength", "SubjectUniqueId.BitLength":
 			// 8 * len(b) of the same bytes
 			ok := false
-			if bin, isBin := fs.st.Val.(*ssa.BinOp); isBin && bin.Op == token.MUL {
+			if bin, isBin := fs.val().(*ssa.BinOp); isBin && bin.Op == token.MUL {
 				if k, isK := bin.Y.(*ssa.Const); isK && k.Int64() == 8 {
 					if call, isCall := bin.X.(*ssa.Call); isCall {
 						if bi, isB := call.Call.Value.(*ssa.Builtin); isB && bi.Name() == "len" {
@@ -1034,7 +1144,7 @@ func ruleProvSubject(c *Ctx, r *Rep) {
 					}
 				}
 			}
-			r.Check(ok, "yaml|"+fs.field, c.Pos(fs.st.Pos()), "BitLength = len(bytes) * 8", fs.st.Val.String())
+			r.Check(ok, "yaml|"+fs.field, c.Pos(fs.st.Pos()), "BitLength = len(bytes) * 8", fs.val().String())
 		}
 	}
 }
@@ -1086,7 +1196,7 @@ func ruleProvManip(c *Ctx, r *Rep) {
 			continue
 		}
 		seen[fs.field] = true
-		o := pv.Contents(fs.st.Val)
+		o := pv.Contents(fs.val())
 		srcFields := map[string]bool{}
 		for _, x := range o {
 			for _, m := range reYaml.FindAllStringSubmatch(x, -1) {
@@ -1131,11 +1241,11 @@ func ruleProvManip(c *Ctx, r *Rep) {
 			if !ok {
 				continue // serial, unique ids, request key: PROV-SUBJECT / PROV-KEY
 			}
-			if o := pv.here(fs.st.Val); len(o) == 1 && !strings.Contains(o[0], ".Manipulations.") {
+			if o := pv.here(fs.val()); len(o) == 1 && !strings.Contains(o[0], ".Manipulations.") {
 				continue // e.g. PublicKey from the request
 			}
 			seenT[fs.field] = true
-			expectSet(r, "tbs-manipulation|"+fs.field, c.Pos(fs.st.Pos()), pv.here(fs.st.Val), "TBS field <- its manipulation", w)
+			expectSet(r, "tbs-manipulation|"+fs.field, c.Pos(fs.st.Pos()), pv.here(fs.val()), "TBS field <- its manipulation", w)
 			guarded := false
 			for _, g := range guardsOf(fs.st.Block()) {
 				if bin, ok := g.Cond.(*ssa.BinOp); ok && bin.Op == token.NEQ && g.Truth {
@@ -1182,7 +1292,7 @@ func ruleProvManip(c *Ctx, r *Rep) {
 				continue
 			}
 			seenO[fs.field] = true
-			expectSet(r, "outer-manipulation|"+fs.field, c.Pos(fs.st.Pos()), pv.here(fs.st.Val), "outer field <- its manipulation", w)
+			expectSet(r, "outer-manipulation|"+fs.field, c.Pos(fs.st.Pos()), pv.here(fs.val()), "outer field <- its manipulation", w)
 			after := false
 			if fr.site == nil {
 				after = instrDominates(signCall, fs.st)
@@ -1329,7 +1439,7 @@ func ruleProvKey(c *Ctx, r *Rep) {
 		r.Check(okStore, "set-key-stores-argument|"+sk, c.FnPos(sp), "ctx.PrivateKey = the key given", sprintf("%v", okStore))
 		for _, fs := range storesIntoType(c, sp, "cert.TbsCertificate") {
 			if fs.field == "PublicKey.PublicKey.Bytes" {
-				o := strings.Join(pv.Origins(fs.st.Val), ",")
+				o := strings.Join(pv.Origins(fs.val()), ",")
 				r.Check(strings.Contains(o, "P("+sk+"."+sp.Params[1].Name()+")"), "spki-from-same-key|"+sk, c.Pos(fs.st.Pos()), "subjectPublicKey bits derived from the key given", o)
 			}
 		}
@@ -1614,18 +1724,58 @@ func ruleFillBytes(c *Ctx, r *Rep) {
 		for _, ci := range cis {
 			n++
 			fk := c.FuncKey(fn)
-			// buffer = make([]byte, (N.BitLen()+7)/8)
+			// buffer = make([]byte, ceil(N.BitLen()/8)): the length expression (through helpers) is evaluated for every bit
+			// length up to 1100 and compared with (x+7)/8
 			ms, ok := ci.Common().Args[1].(*ssa.MakeSlice)
 			sized := false
 			if ok {
-				if div, ok := ms.Len.(*ssa.BinOp); ok && div.Op == token.QUO {
-					if k, ok := div.Y.(*ssa.Const); ok && k.Int64() == 8 {
-						if add, ok := div.X.(*ssa.BinOp); ok && add.Op == token.ADD {
-							if k7, ok := add.Y.(*ssa.Const); ok && k7.Int64() == 7 {
-								if bl, ok := add.X.(*ssa.Call); ok && calleeFullName(bl) == "(*math/big.Int).BitLen" {
-									o := strings.Join(pv.Origins(bl.Call.Args[0]), ",")
-									sized = strings.HasSuffix(o, ".N")
+				var leaf *ssa.Call
+				var find func(v ssa.Value, bind map[*ssa.Parameter]ssa.Value, d int)
+				find = func(v ssa.Value, bind map[*ssa.Parameter]ssa.Value, d int) {
+					if d > 8 || v == nil {
+						return
+					}
+					switch x := v.(type) {
+					case *ssa.BinOp:
+						find(x.X, bind, d+1)
+						find(x.Y, bind, d+1)
+					case *ssa.Convert:
+						find(x.X, bind, d+1)
+					case *ssa.Parameter:
+						if a, ok := bind[x]; ok {
+							find(a, nil, d+1)
+						}
+					case *ssa.Call:
+						if calleeFullName(x) == "(*math/big.Int).BitLen" {
+							leaf = x
+							return
+						}
+						if g := x.Call.StaticCallee(); g != nil && c.InModule(g) && len(g.Blocks) == 1 {
+							b2 := map[*ssa.Parameter]ssa.Value{}
+							for i, q := range g.Params {
+								if i < len(x.Call.Args) {
+									b2[q] = x.Call.Args[i]
 								}
+							}
+							if rets := returnsOf(g); len(rets) == 1 {
+								find(retResults(rets[0])[0], b2, d+1)
+							}
+							// the leaf may be in the argument
+							for _, a := range x.Call.Args {
+								find(a, bind, d+1)
+							}
+						}
+					}
+				}
+				find(ms.Len, nil, 0)
+				if leaf != nil {
+					o := strings.Join(pv.Origins(leaf.Call.Args[0]), ",")
+					if strings.HasSuffix(o, ".N") {
+						sized = true
+						for x := int64(0); x <= 1100 && sized; x++ {
+							got, okE := evalIntExpr(c, ms.Len, map[ssa.Value]int64{leaf: x}, nil, 0)
+							if !okE || got != (x+7)/8 {
+								sized = false
 							}
 						}
 					}
@@ -1963,4 +2113,79 @@ func dynamicKinds(c *Ctx, v ssa.Value, depth int) []string {
 		out = append(out, typeShort(c, x.Type()))
 	}
 	return uniq(out)
+}
+
+// evalIntExpr evaluates an integer expression over constants, the given leaf values and single-expression module helpers.
+func evalIntExpr(c *Ctx, v ssa.Value, leaves map[ssa.Value]int64, bind map[*ssa.Parameter]ssa.Value, d int) (int64, bool) {
+	if d > 12 {
+		return 0, false
+	}
+	if x, ok := leaves[v]; ok {
+		return x, true
+	}
+	switch x := v.(type) {
+	case *ssa.Const:
+		if x.Value != nil && x.Value.Kind() == constant.Int {
+			return x.Int64(), true
+		}
+	case *ssa.Convert:
+		return evalIntExpr(c, x.X, leaves, bind, d+1)
+	case *ssa.Parameter:
+		if a, ok := bind[x]; ok {
+			return evalIntExpr(c, a, leaves, nil, d+1)
+		}
+	case *ssa.BinOp:
+		a, ok1 := evalIntExpr(c, x.X, leaves, bind, d+1)
+		b, ok2 := evalIntExpr(c, x.Y, leaves, bind, d+1)
+		if !ok1 || !ok2 {
+			return 0, false
+		}
+		switch x.Op {
+		case token.ADD:
+			return a + b, true
+		case token.SUB:
+			return a - b, true
+		case token.MUL:
+			return a * b, true
+		case token.QUO:
+			if b == 0 {
+				return 0, false
+			}
+			return a / b, true
+		case token.REM:
+			if b == 0 {
+				return 0, false
+			}
+			return a % b, true
+		case token.SHR:
+			return a >> uint(b), true
+		case token.SHL:
+			return a << uint(b), true
+		case token.AND:
+			return a & b, true
+		}
+	case *ssa.Call:
+		if g := x.Call.StaticCallee(); g != nil && c.InModule(g) && len(g.Blocks) == 1 {
+			if rets := returnsOf(g); len(rets) == 1 && len(retResults(rets[0])) == 1 {
+				b2 := map[*ssa.Parameter]ssa.Value{}
+				for i, q := range g.Params {
+					if i < len(x.Call.Args) {
+						b2[q] = x.Call.Args[i]
+					}
+				}
+				// arguments are evaluated in the caller's frame first
+				l2 := map[ssa.Value]int64{}
+				for k, val := range leaves {
+					l2[k] = val
+				}
+				for q, a := range b2 {
+					if val, ok := evalIntExpr(c, a, leaves, bind, d+1); ok {
+						l2[q] = val
+					}
+				}
+				return evalIntExpr(c, retResults(rets[0])[0], l2, nil, d+1)
+			}
+		}
+	}
+	return 0, false
 }
